@@ -599,6 +599,19 @@ func (ex *Exec) havocTarget(st, old *State, ct *Contract, m *Clause, pre *SpecEn
 		st.heap[comp] = nh
 		return
 	}
+	// a map-typed expression: the map object it denotes may change
+	if _, isSel := m.Expr.(ESel); !isSel || true {
+		if mt, ok := ex.tryMapTarget(pre, m); ok {
+			mc := ex.mapCompsOf(mt.T)
+			for _, c := range []string{mc.has, mc.val, mc.ln} {
+				h := ex.mapHeap(st, c)
+				hc := ex.vc.heapT[c]
+				nv := vc.fresh("mh", hc.sort)
+				st.heap[c] = vc.define("Mx", ex.compSort(c), sx("store", h, mt.S, nv))
+			}
+			return
+		}
+	}
 	sel, ok := m.Expr.(ESel)
 	if !ok {
 		sfail("modifies: unsupported target %s", m.Text)
@@ -622,6 +635,22 @@ func (ex *Exec) havocTarget(st, old *State, ct *Contract, m *Clause, pre *SpecEn
 		}
 	}
 	sfail("modifies: no field %s", sel.Name)
+}
+
+// tryMapTarget evaluates a modifies target and reports whether it denotes a map object.
+func (ex *Exec) tryMapTarget(pre *SpecEnv, m *Clause) (t Term, ok bool) {
+	defer func() {
+		if r := recover(); r != nil {
+			if _, isSpec := r.(specErr); isSpec {
+				ok = false
+				return
+			}
+			panic(r)
+		}
+	}()
+	t = pre.evalTerm(m.Expr, nil)
+	_, ok = t.T.Underlying().(*types.Map)
+	return t, ok
 }
 
 // ---- builtins ------------------------------------------------------------------------------
